@@ -2,6 +2,7 @@ package rules
 
 import (
 	"fmt"
+	"go/constant"
 	"go/token"
 	"go/types"
 	"sort"
@@ -243,8 +244,21 @@ func runC09(k *eng.Check, tier string) {
 						break
 					}
 				}
-				if msw == nil {
-					k.Unknown("fileid-dispatch", eng.Name(mf), "switch over the file id", "not found")
+				// the dispatch may be written as a switch or as an if/else-if chain: both compile to comparisons of the
+				// file id with string constants, so when no switch statement is found the compared constants are used
+				var mConsts map[string]bool
+				mPos := c.Pos(mf.Pos())
+				if msw != nil {
+					mConsts = map[string]bool{}
+					for v := range msw.Consts {
+						mConsts[v] = true
+					}
+					mPos = c.Pos(msw.Node.Pos())
+				} else if cs := c09StringConstsCompared(mf); len(cs) >= 6 {
+					mConsts = cs
+				}
+				if mConsts == nil {
+					k.Unknown("fileid-dispatch", eng.Name(mf), "dispatch over the file id (switch, or chain of comparisons with string constants)", "not found")
 				} else {
 					pkg := c.PkgOf(wf)
 					n := 0
@@ -262,8 +276,8 @@ func runC09(k *eng.Check, tier string) {
 						for _, e := range cc.List {
 							if tv, ok := pkg.TypesInfo.Types[e]; ok && tv.Value != nil {
 								n++
-								_, has := msw.Consts[tv.Value.ExactString()]
-								k.Require("fileid-dispatch", "message.WalkAddresses#"+types.ExprString(e), "a node kind delegated to message.WalkAddresses has a case there", has, c.Pos(msw.Node.Pos()), "delegated kind falls into the default (panic) branch")
+								has := mConsts[tv.Value.ExactString()]
+								k.Require("fileid-dispatch", "message.WalkAddresses#"+types.ExprString(e), "a node kind delegated to message.WalkAddresses has a case there", has, mPos, "delegated kind falls into the default (panic) branch")
 							}
 						}
 					}
@@ -353,3 +367,30 @@ func isHashType(t types.Type) bool {
 }
 
 var _ = token.NoPos
+
+// c09StringConstsCompared: the string constants (by exact value) that fn compares a non-constant string with in
+// branch conditions — the case labels of a switch or of an equivalent if/else-if chain.
+func c09StringConstsCompared(fn *ssa.Function) map[string]bool {
+	out := map[string]bool{}
+	for _, b := range fn.Blocks {
+		if len(b.Instrs) == 0 {
+			continue
+		}
+		iff, ok := b.Instrs[len(b.Instrs)-1].(*ssa.If)
+		if !ok {
+			continue
+		}
+		bo, ok := iff.Cond.(*ssa.BinOp)
+		if !ok || (bo.Op != token.EQL && bo.Op != token.NEQ) {
+			continue
+		}
+		for _, pair := range [][2]ssa.Value{{bo.X, bo.Y}, {bo.Y, bo.X}} {
+			cst, isC := pair[1].(*ssa.Const)
+			if _, otherConst := pair[0].(*ssa.Const); !isC || otherConst || cst.Value == nil || cst.Value.Kind() != constant.String {
+				continue
+			}
+			out[cst.Value.ExactString()] = true
+		}
+	}
+	return out
+}
